@@ -752,6 +752,9 @@ class ProcessStatus:
         :return: True if the process is not defined anywhere anymore.
         """
         del self.info_map[identifier]
+        if self.info_map:
+            # re-evaluate the synthesis without the removed entry
+            self.update_status(identifier, ProcessStates.STOPPED)
         return self.info_map == {}
 
     def update_status(self, identifier: str, new_state: ProcessStates) -> None:
